@@ -80,6 +80,20 @@ theorem filterMap_kept {α β : Type} (f : α → Option β) (l : List α) :
     | none => exact ⟨kept, hs.cons _, hf⟩
     | some y => exact ⟨x :: kept, hs.cons_cons _, List.Forall₂.cons hx hf⟩
 
+/-- … and every kept element is an element of the list -/
+theorem filterMap_kept' {α β : Type} (f : α → Option β) (l : List α) :
+    ∃ kept, kept.Sublist l ∧ List.Forall₂ (fun x y => x ∈ l ∧ f x = some y) kept (l.filterMap f) := by
+  induction l with
+  | nil => exact ⟨[], List.Sublist.slnil, List.Forall₂.nil⟩
+  | cons x l ih =>
+    obtain ⟨kept, hs, hf⟩ := ih
+    have hf' : List.Forall₂ (fun x' y => x' ∈ x :: l ∧ f x' = some y) kept (l.filterMap f) :=
+      hf.imp (fun a b h => ⟨List.mem_cons_of_mem _ h.1, h.2⟩)
+    rw [List.filterMap_cons]
+    cases hx : f x with
+    | none => exact ⟨kept, hs.cons _, hf'⟩
+    | some y => exact ⟨x :: kept, hs.cons_cons _, List.Forall₂.cons ⟨List.mem_cons_self, hx⟩ hf'⟩
+
 /-- every element of the right list of a `Forall₂` has a partner in the left list -/
 theorem forall₂_mem_right {α β : Type} {R : α → β → Prop} {l₁ : List α} {l₂ : List β} (h : List.Forall₂ R l₁ l₂) :
     ∀ y ∈ l₂, ∃ x ∈ l₁, R x y := by
@@ -115,26 +129,41 @@ theorem matcherPairRaw_some (a : MatcherArgs) (tok : Option (String → List Tok
   simp only [key] at h
   split_ifs at h <;> exact ⟨_, (Option.some.inj h).symm⟩
 
-/-- a kept candidate row: its two source rows exist, carry the candidate's keys, and the output row is
-    `matcherOutRow` of the candidate's `_id` and these two rows -/
+/-- a kept candidate row whose key cells ARE cells of the tables' key columns (identical values, not merely
+    Python-equal ones): its two source rows exist, carry the candidate's keys, and the output row is `matcherOutRow`
+    of the candidate's `_id` and these two rows.  (For key cells that are only Python-equal to the tables' — `1.0`
+    against `1` — the output row carries, without output attributes, the candidate's own key cells:
+    `matcherTableSpec_eq`, `matcherPairRawK`.) -/
 theorem matcherTableSpec_some (a : MatcherArgs) (t : Option TokObj) (toks : TokFn) (sim : SimArg → SimArg → PyV)
-    (c l r : Frame) (hlk : (l.col a.lKey).Nodup) (hrk : (r.col a.rKey).Nodup) (cr row : Row)
+    (c l r : Frame) (hlk : PyDistinct (l.col a.lKey)) (hrk : PyDistinct (r.col a.rKey)) (cr row : Row)
+    (hml : cr.cell (c.colIdx a.candLKey) ∈ l.col a.lKey) (hmr : cr.cell (c.colIdx a.candRKey) ∈ r.col a.rKey)
     (h : matcherTableSpec a t toks sim c l r cr = some row) :
     ∃ ls ∈ l.rows, ∃ rs ∈ r.rows, ∃ s : Cell,
       ls.cell (l.colIdx a.lKey) = cr.cell (c.colIdx a.candLKey) ∧
       rs.cell (r.colIdx a.rKey) = cr.cell (c.colIdx a.candRKey) ∧
       row = matcherOutRow a l r (cr.cell 0) ls rs s := by
   rw [matcherTableSpec_eq a t toks sim c l r hlk hrk cr] at h
-  cases hfl : l.rows.find? (fun s => s.cell (l.colIdx a.lKey) == cr.cell (c.colIdx a.candLKey)) with
+  cases hfl : l.rows.find? (fun s => (s.cell (l.colIdx a.lKey)).pyEq (cr.cell (c.colIdx a.candLKey))) with
   | none => rw [hfl] at h; cases h
   | some ls =>
-    cases hfr : r.rows.find? (fun s => s.cell (r.colIdx a.rKey) == cr.cell (c.colIdx a.candRKey)) with
+    cases hfr : r.rows.find? (fun s => (s.cell (r.colIdx a.rKey)).pyEq (cr.cell (c.colIdx a.candRKey))) with
     | none => rw [hfl, hfr] at h; cases h
     | some rs =>
       rw [hfl, hfr] at h
+      have hls := List.mem_of_find?_eq_some hfl
+      have hrs := List.mem_of_find?_eq_some hfr
+      have e1 : ls.cell (l.colIdx a.lKey) = cr.cell (c.colIdx a.candLKey) :=
+        hlk.unique (List.mem_map_of_mem (f := fun row : Row => row.cell (l.colIdx a.lKey)) hls) hml
+          (List.find?_some (p := fun s : Row => (s.cell (l.colIdx a.lKey)).pyEq (cr.cell (c.colIdx a.candLKey))) hfl)
+          (Cell.pyEq_refl _)
+      have e2 : rs.cell (r.colIdx a.rKey) = cr.cell (c.colIdx a.candRKey) :=
+        hrk.unique (List.mem_map_of_mem (f := fun row : Row => row.cell (r.colIdx a.rKey)) hrs) hmr
+          (List.find?_some (p := fun s : Row => (s.cell (r.colIdx a.rKey)).pyEq (cr.cell (c.colIdx a.candRKey))) hfr)
+          (Cell.pyEq_refl _)
+      dsimp only at h
+      rw [← e1, ← e2, matcherPairRawK_self] at h
       obtain ⟨s, hs⟩ := matcherPairRaw_some a _ sim l r _ ls rs row h
-      exact ⟨ls, List.mem_of_find?_eq_some hfl, rs, List.mem_of_find?_eq_some hfr, s,
-        by simpa using List.find?_some hfl, by simpa using List.find?_some hfr, hs⟩
+      exact ⟨ls, hls, rs, hrs, s, e1, e2, hs⟩
 
 /-- `apply_matcher` at table level, provenance form: the result's rows are, in candset order, the output rows of a
     sublist `kept` of the candidate rows -/
@@ -151,12 +180,14 @@ theorem applyMatcher_kept (a : MatcherArgs) (t : Option TokObj) (toks : TokFn) (
           ls.cell (l.colIdx a.lKey) = cr.cell (c.colIdx a.candLKey) ∧
           rs.cell (r.colIdx a.rKey) = cr.cell (c.colIdx a.candRKey) ∧
           row = matcherOutRow a l r (cr.cell 0) ls rs s) kept fr.rows := by
-  obtain ⟨fr, hfr, hcols, hrows⟩ := applyMatcher_rows' a t toks sim cpu c l r hv hl hr hlen hstr
+  obtain ⟨fr, hfr, hcols, hrows⟩ := applyMatcher_rows' a t toks sim cpu c l r hv
+    (fun cr hcr => PyMem.of_mem (hl cr hcr)) (fun cr hcr => PyMem.of_mem (hr cr hcr)) hlen hstr
   have hV := (validateMatcher_ok_iff a t c l r).1 hv
-  obtain ⟨kept, hs, hf⟩ := filterMap_kept (matcherTableSpec a t toks sim c l r) c.rows
+  obtain ⟨kept, hs, hf⟩ := filterMap_kept' (matcherTableSpec a t toks sim c l r) c.rows
   refine ⟨fr, kept, hfr, hcols, hs, ?_⟩
   rw [hrows]
-  exact hf.imp (fun cr row h => matcherTableSpec_some a t toks sim c l r hV.lKeyValid.nodup hV.rKeyValid.nodup cr row h)
+  exact hf.imp (fun cr row h => matcherTableSpec_some a t toks sim c l r hV.lKeyValid.1 hV.rKeyValid.1 cr row
+    (hl cr h.1) (hr cr h.1) h.2)
 
 end SSJ
 
